@@ -8,6 +8,8 @@ CONSTANTS
   RemDeadMeansDead = FALSE
   CacheDeadOnFalse = FALSE
   RebuildRaises = FALSE
+  StaleAliveAfterKill = FALSE
+  HiddenDeadline = FALSE
   Hist = TRUE
   Cases <- PlanCases
 INVARIANT PathDump
